@@ -43,7 +43,8 @@ for j in jobs:
         ok = got == j['expect']
         bad += 0 if ok else 1
         first = [l for l in r.stdout.splitlines() if l.startswith('VIOLATION')][:1]
-        rows.append((j['prop'], j['expect'], got + ('' if ok else '  <-- UNEXPECTED'), j['desc'] + ('  [%s]' % first[0][:110] if first else '') + '  (%.0fs)' % (time.time() - t)))
+        und = sum(1 for l in r.stdout.splitlines() if l.startswith('UNDECIDED'))
+        rows.append((j['prop'], j['expect'], got + ('' if ok else '  <-- UNEXPECTED'), j['desc'] + ('  [%s]' % first[0][:110] if first else '') + ('  [undecided=%d]' % und if und else '') + '  (%.0fs)' % (time.time() - t)))
     finally:
         shutil.rmtree(scratch, ignore_errors=True)
         shutil.rmtree(os.path.join(V, '.scratch', os.path.basename(scratch)), ignore_errors=True)
